@@ -52,7 +52,7 @@ SECURITY_FNS = ["has_permission", "apply_if_auth", "apply_to_database_name_if_ha
 
 PROPS = {
     "C01": dict(
-        units=["store", "listing"],
+        units=["store", "listing", "snapshot"],
         kani=[K_PATTERN_CHOICE],
         undecided=["parser / dispatcher glue between the command line and these functions",
                    "`keys`: String's ordering (the meaning of 'sorted') is an uninterpreted total order; the Keys arm of the dispatcher (which list_system_keys flag it passes) is "
